@@ -1,4 +1,4 @@
-module spike9
+module spike10
 
 go 1.23
 
